@@ -486,6 +486,21 @@ func gpOsfs(seq string) string {
 				return "bad " + err.Error()
 			}
 			out = append(out, "w")
+		case "l": // set-up: a symbolic link to a file kept elsewhere, whose modification time is p[2]
+			store := dir + "-store"
+			os.MkdirAll(store, 0o755)
+			defer os.RemoveAll(store)
+			target := store + "/" + unhexStr(p[1])
+			mt, _ := strconv.ParseInt(p[2], 10, 64)
+			os.Remove(path(1))
+			if err := os.WriteFile(target, []byte("x"), 0o644); err != nil {
+				return "bad " + err.Error()
+			}
+			os.Chtimes(target, time.Unix(mt, 0), time.Unix(mt, 0))
+			if err := os.Symlink(target, path(1)); err != nil {
+				return "bad " + err.Error()
+			}
+			out = append(out, "l")
 		case "h":
 			at, _ := strconv.ParseInt(p[2], 10, 64)
 			mt, _ := strconv.ParseInt(p[3], 10, 64)
@@ -545,7 +560,10 @@ func genOsfs(r *rng) string {
 	n := 2 + r.intn(8)
 	for k := 0; k < n; k++ {
 		nm := hexStr(pick(r, names))
-		switch r.intn(7) {
+		switch r.intn(8) {
+		case 7:
+			// a video that is a symbolic link into a library kept elsewhere
+			seq = append(seq, fmt.Sprintf("l:%s:%d", nm, 1000000+r.intn(900000000)), "s:"+nm)
 		case 0, 1:
 			seq = append(seq, "w:"+nm)
 		case 2, 3:
@@ -734,6 +752,7 @@ func corpusGP(cfg *config) []string {
 		"validate " + hexList(chapterRange(0, 10)),
 		"validate " + hexList(chapterRange(1, 99)),
 		"validate " + hexList(chapterRange(0, 100)),
+		"osfs l:" + hexStr("GOPR0001.mp4") + ":1646370367,s:" + hexStr("GOPR0001.mp4") + ",d,h:" + hexStr("GOPR0001.mp4") + ":5:777777777,s:" + hexStr("GOPR0001.mp4") + ",r:" + hexStr("GOPR0001.mp4") + ",s:" + hexStr("GOPR0001.mp4"),
 		"osfs w:" + hexStr("a.mp4") + ",h:" + hexStr("a.mp4") + ":1111111:2222222,s:" + hexStr("a.mp4") + ",t:" + hexStr("gopro-process-") + ",d,r:" + hexStr("a.mp4") + ",s:" + hexStr("a.mp4"),
 	}
 	// every single failing operation of one fixed scenario (fault enumeration in support of
